@@ -527,6 +527,9 @@ fn clear_order_by_others(rep: &Report) -> u64 {
         ("order", |s| { s.order_by(a("c"), Order::Asc); }),
         ("order", |s| { s.order_by(a("d"), Order::Desc); }),
         ("frame", |s| { s.frame_start(FrameType::Rows, Frame::CurrentRow); }),
+        ("frame", |s| { s.frame_between(FrameType::Range, Frame::UnboundedPreceding, Frame::CurrentRow); }),
+        ("frame", |s| { s.frame_between(FrameType::Rows, Frame::Preceding(1), Frame::Following(1)); }),
+        ("partition", |s| { s.partition_by(a("q")); }),
     ];
     for mask in 0u32..(1 << wops.len()) {
         cases += 1;
